@@ -425,9 +425,10 @@ type TypeJSON struct {
 	Implementors []string `json:"implementors,omitempty"`
 }
 type FieldJSON struct {
-	Name string    `json:"name"`
-	Type *TypeRefJ `json:"type"`
-	Dirs []string  `json:"dirs,omitempty"`
+	Name  string    `json:"name"`
+	Type  *TypeRefJ `json:"type"`
+	Dirs  []string  `json:"dirs,omitempty"`
+	Plain bool      `json:"plain,omitempty"` // bound as a plain struct field (no resolver is invoked)
 }
 type TypeRefJ struct {
 	Name    string    `json:"name,omitempty"`
@@ -471,6 +472,11 @@ func SchemaToJSON(s *ast.Schema) SchemaJSON {
 			fj := FieldJSON{Name: f.Name, Type: typeRef(f.Type)}
 			for _, dd := range f.Directives {
 				fj.Dirs = append(fj.Dirs, dd.Name)
+			}
+			for _, pn := range Plain[n] {
+				if pn == f.Name {
+					fj.Plain = true
+				}
 			}
 			t.Fields = append(t.Fields, fj)
 		}
